@@ -76,7 +76,7 @@ BadCase == RejectEnv /\ Ev.ev = "Run" /\ ~CaseOk /\ UNCHANGED fam
 EvRun == IsEv("Run") /\ CaseOk /\ Accept /\ grid' = GridOf(Ev) /\ expAt' = [T \in GridOf(Ev) |-> TopAt(T)] /\ matched' = {} /\ lastV' = <<>>
          /\ returned' = FALSE /\ UNCHANGED <<recs, expr, ents, open, flat>>
 
-ValEq(s, ev) == IF s.sq THEN ev.sq.t = "rat" /\ s.v.k = "rat" /\ ev.sq.n = s.v.n /\ ev.sq.d = s.v.d
+ValEq(s, ev) == IF s.v.k = "open" THEN TRUE ELSE IF s.sq THEN ev.sq.t = "rat" /\ s.v.k = "rat" /\ ev.sq.n = s.v.n /\ ev.sq.d = s.v.d
                 ELSE ev.val.t = s.v.k /\ (s.v.k = "rat" => ev.val.n = s.v.n /\ ev.val.d = s.v.d)
 FitsAt(T, ev) == {s \in expAt[T].must \cup expAt[T].may : s.L = PairsOf(ev.labels) /\ ValEq(s, ev) /\ <<T, s.L>> \notin matched}
 IsSort == IF flat.on \/ expr.t # "vecagg" THEN FALSE ELSE expr.op \in {"sort", "sort_desc"}
